@@ -345,10 +345,11 @@ static Prog make_program(vh::Rng& rng, std::string& descr, bool io, int force_ki
     for (int i = 0; i < 2; ++i) {
         if (flavour != 2 && rng.chance(1, 4)) continue;
         static const u32 shorts[] = {2, 3, 5, 7, 12, 20};
-        u32 st = flavour == 2 ? shorts[rng.below(6)] : starts[rng.below(sizeof(starts) / sizeof(starts[0]))];
+        static const u32 longs[] = {3000, 5000, 0xFFFE, 0xFFFF, 0x10000, 0x10001, 70000, 0x12345, 131071, 131072, 200000};   // flavour 3: long horizons
+        u32 st = flavour == 2 ? shorts[rng.below(6)] : flavour == 3 ? longs[rng.below(11)] : starts[rng.below(sizeof(starts) / sizeof(starts[0]))];
         p.mmio_write(0x24 + 0x10 * i, st & 0xFFFF);
         p.mmio_write(0x26 + 0x10 * i, st >> 16);
-        unsigned mode = flavour == 2 && rng.chance(2, 3) ? 1 : rng.below(4);
+        unsigned mode = (flavour == 2 || flavour == 3) && rng.chance(2, 3) ? 1 : rng.below(4);
         u16 cfg = (mode << 2) | (flavour != 2 && rng.chance(1, 8) ? 0x100 : 0) | (rng.chance(2, 3) ? 0x200 : 0) | (flavour == 2 || rng.chance(4, 5) ? 0x400 : 0);
         p.mmio_write(0x20 + 0x10 * i, cfg);
         if (mode == 3 && rng.chance(1, 2)) p.mmio_write(0x22 + 0x10 * i, 1);
@@ -726,17 +727,22 @@ int main(int argc, char** argv) {
     long programs = a.n;
     for (long pi = 0; pi < programs; ++pi) {
         std::string descr;
-        bool io = a.mode == "io" || a.mode == "page" || a.mode == "dma" || a.mode == "audio" || (a.mode != "loops" && rng.chance(1, 3));
+        bool io = a.mode == "io" || a.mode == "page" || a.mode == "dma" || a.mode == "audio" || (a.mode == "long" && rng.chance(1, 2)) || (a.mode != "loops" && rng.chance(1, 3));
         Prog prog = a.mode == "loops" ? make_loop_program(rng, descr) : make_program(rng, descr, io, a.mode == "page" ? 9 : a.mode == "dma" ? 10 : a.mode == "audio" ? (rng.chance(2, 3) ? 7 : 6) :
-                                                                                      a.mode == "irq" ? (rng.chance(1, 2) ? 0 : 2) : -1,
-                                                                                      a.mode == "audio" ? 1 : a.mode == "irq" ? 2 : 0);
+                                                                                      a.mode == "irq" ? (rng.chance(1, 2) ? 0 : 2) :
+                                                                                      a.mode == "long" ? (io ? 7 : rng.chance(1, 2) ? 0 : 2) : -1,
+                                                                                      a.mode == "audio" ? 1 : a.mode == "irq" ? 2 : a.mode == "long" ? 3 : 0);
         const bool dmaprog = descr == "kind10";
         // the audio transmit period has no register (4096 cycles after reset): shorten it so that frames, the
         // empty interrupt and queue refills happen within the budget; the New line carries the value
         unsigned period[2] = {io ? (rng.chance(1, 8) ? 4096u : 2 + rng.below(60)) : 4096u, io ? 1 + rng.below(40) : 4096u};
+        const bool longrun = a.mode == "long";
+        if (longrun) { period[0] = rng.chance(1, 2) ? 4096u : 1000 + rng.below(9000); period[1] = rng.chance(1, 2) ? 4096u : 3000 + rng.below(60000); }
         u64 host_seed = rng.next();
         unsigned total = rng.chance(1, 5) ? 300 + rng.below(3000) : 60 + rng.below(400);
         if (dmaprog) total = 300 + rng.below(500);     // the set-up alone takes a few hundred instructions
+        // long mode: tens to hundreds of thousands of cycles, mostly spent idle (counters crossing 2^16, many audio periods)
+        if (longrun) total = rng.chance(1, 3) ? 200000 + rng.below(300000) : 20000 + rng.below(120000);
         // slicings: one piece, single steps for a prefix then the rest, random slices, twos/threes
         std::vector<std::vector<unsigned>> slicings;
         slicings.push_back({total});
@@ -744,6 +750,12 @@ int main(int argc, char** argv) {
         { std::vector<unsigned> s; unsigned left = total; unsigned ones = std::min<unsigned>(left, 20 + rng.below(80)); for (unsigned i = 0; i < ones; ++i) s.push_back(1); left -= ones; while (left) { unsigned n = 1 + rng.below(200); if (n > left) n = left; s.push_back(n); left -= n; } slicings.push_back(s); }
         if (a.mode == "irq" || a.mode == "audio") {   // a fourth slicing of short slices only (2..5 cycles): a slice boundary every few cycles
             std::vector<unsigned> s; unsigned left = total; while (left) { unsigned n = 2 + rng.below(4); if (n > left) n = left; s.push_back(n); left -= n; } slicings.push_back(s);
+        }
+        if (longrun) {   // slices of very different sizes: one piece; thousands at a time; a few huge ones with small ones between
+            slicings.clear();
+            slicings.push_back({total});
+            { std::vector<unsigned> s; unsigned left = total; while (left) { unsigned n = 1 + rng.below(rng.chance(1, 3) ? 60000 : 5000); if (n > left) n = left; s.push_back(n); left -= n; } slicings.push_back(s); }
+            { std::vector<unsigned> s; unsigned left = total; while (left) { unsigned n = rng.chance(1, 2) ? 1 + rng.below(4) : 65530 + rng.below(12); if (n > left) n = left; s.push_back(n); left -= n; } slicings.push_back(s); }
         }
         if (a.mode == "step") {   // every instruction boundary observed (C07): single steps only, for a bounded budget
             total = std::min<unsigned>(total, 260);
